@@ -465,7 +465,7 @@ func lenClass(n int) string {
 
 func main() {
 	vf.Main("C03", "exploration", func(c *vf.Ctx) {
-		c.Rule = "seeded generators: valid span contexts x grammar-built tracestates (round trip), mutated/raw traceparent and tracestate header bytes (never-accept-malformed, untouched-on-failure, bad tracestate does not invalidate traceparent), Insert/Delete programs vs a move-to-front list model; a third of the round trips inject into a carrier an earlier hop already wrote to. non-trivial/distinct = distinct (family, accept/reject class, version, flags, length class, member-count) signatures"
+		c.Rule = "seeded generators: valid span contexts x grammar-built tracestates (round trip), mutated/raw traceparent and tracestate header bytes (never-accept-malformed, untouched-on-failure, bad tracestate does not invalidate traceparent), Insert/Delete programs vs a move-to-front list model; a third of the round trips inject into a carrier an earlier hop already wrote to. non-trivial/distinct = distinct (family, accept/reject class, version, flags, length class, member-count) signatures; extraction over an earlier extraction of the same span with another tracestate"
 		c.Assume = []string{"W3C trace-context level 1 ABNF transcribed by hand in the harness (union with the level-2 key grammar for the accept direction)"}
 
 		// ---------------- round trip ----------------
